@@ -463,6 +463,35 @@ def zero_timeout_cases(rng, thorough):
     return out
 
 
+def extensions_around(case, k, rng):
+    """a cheap search around a history on which model and implementation differ at line k: the same prefix continued by
+    plain deliveries, by replays of everything the relay has seen, and by a new transfer under every token of the history
+    (at once / after the expiry without a sweep / after a sweep) — judged, so that a correspondence break more often comes
+    with a concrete failing input"""
+    prefix = [l for l in case.lines[:k + 1] if l != "end"]
+    regs = {}
+    for l in prefix:
+        f = l.split()
+        if f[0] == "reg" and f[1] == "A":
+            regs[f[2]] = f
+    nhist = sum(1 for l in prefix if l in ("net deliver", "net dup", "net drop"))
+    out = [prefix + ["net deliver"] * 16]
+    rep = []
+    for i in range(min(nhist, 12)):
+        rep += ["net replay %d" % i, "net deliver", "net deliver"]
+    if rep:
+        out.append(prefix + rep)
+    for pre in ([], ["sleep 300"], ["sleep 3500"], ["sleep 300", "tick A", "tick B"]):
+        lines = prefix + pre
+        for tok, f in regs.items():
+            ln = int(f[4])
+            lines = lines + ["reg A %s %s %d %d %s %s" % (tok, f[3], max(ln, 40), 100 + rng.randrange(100), f[6], f[7]), "do %s 20000" % tok]
+            lines += ["net deliver"] * min(120, 2 * (max(ln, 40) // 16 + 3) + 4)
+        if regs:
+            out.append(lines)
+    return [Case(l + ["end"], case.kinds | {"around-mismatch"}, True) for l in out]
+
+
 def judged_cases(ctx, test_exe, driver, cases, prop, clause, tag):
     """runs histories on the real layer and reports what the C04 judge says about them (for sub-checks other properties call)"""
     res = run_lines(ctx, {"test": test_exe, "driver": driver}, cases, tag=tag)
@@ -756,6 +785,35 @@ def explore(ctx, art):
             k = sig_of(what) + (" [token-reuse]" if "token-reuse" in cases[ci].kinds else "")
             hist[k] = hist.get(k, 0) + 1
         ctx.notes.append("failing cases by signature: %s" % sorted(hist.items(), key=lambda kv: -kv[1]))
+    if mism and art.get("driver"):
+        # search around the mismatches: continuations of the differing histories, judged
+        rng2 = random.Random(ctx.seed + 17)
+        ext = []
+        for ci, (k, l, o, m) in list(mism.items())[:8]:
+            ext += extensions_around(cases[ci], k, rng2)
+        res = run_lines(ctx, art, ext, tag="around")
+        if res is not None:
+            lines2, owner2, impl2, model2, judge2 = res
+            first2, seen2 = {}, set()
+            for i, ci in enumerate(owner2):
+                first2.setdefault(ci, i)
+            for i, (l2, o2) in enumerate(zip(lines2, impl2)):
+                ci = owner2[i]
+                if ci in seen2:
+                    continue
+                verdict = None
+                if o2.startswith("panic") or " ; panic " in o2:
+                    verdict = "violates crash: `%s` -> %s" % (l2, o2[:300])
+                elif judge2 is not None and judge2[i] != "ok":
+                    verdict = "%s: observed `%s`: %s" % (l2, o2[:300], judge2[i])
+                if verdict:
+                    seen2.add(ci)
+                    if len(seen2) <= 3:
+                        kk = i - first2[ci]
+                        c = ext[ci]
+                        ctx.violations.append(common.Violation(verdict.split("violates ", 1)[-1].split(":", 1)[0], sig_of(verdict), verdict[:600],
+                                                               {"input": c.lines[:kk + 1] + ([] if c.lines[kk] == "end" else ["end"]), "kinds": sorted(c.kinds)}))
+            ctx.notes.append("search around %d mismatching histories: %d continuations judged, %d failing" % (min(len(mism), 8), len(ext), len(seen2)))
     for ci, (k, l, o, m) in list(mism.items())[:3]:
         ctx.broken.append(("correspondence", "C04 model vs implementation",
                            "case %d line %d `%s`:\n impl  `%s`\n model `%s`\n case: %s" % (ci, k + 1, l, o[:500], m[:500], " ; ".join(cases[ci].lines[:k + 1])[:1500])))
